@@ -65,10 +65,10 @@ func Load(opt Options) (*Program, error) {
 	env := append(os.Environ(),
 		"GOFLAGS=-mod=mod", "GOPROXY=off", "GOSUMDB=off", "GOTOOLCHAIN=local", "GOWORK=off")
 	cfg := &packages.Config{
-		Mode:    mode,
-		Dir:     opt.Dir,
-		Env:     env,
-		Tests:   false,
+		Mode:  mode,
+		Dir:   opt.Dir,
+		Env:   env,
+		Tests: false,
 	}
 	if !opt.Whole {
 		// Types of dependencies come from export data; only the repository's
